@@ -368,7 +368,7 @@ def mult(node):
     return mult(node["inner"])
 
 
-def gen_static(g, depth, ptypes=None, out=None, budget=None, kw_ok=False):
+def gen_static(g, depth, ptypes=None, out=None, budget=None, kw_ok=False, ret_from_dists=False):
     rng = g.rng
     P = g.P
     if ptypes is None:
@@ -428,11 +428,17 @@ def gen_static(g, depth, ptypes=None, out=None, budget=None, kw_ok=False):
         env.append((["v", len(stmts) - 1], cout))
     if out is None:
         out = rand_out(g)
+    ret_env = env
+    if ret_from_dists:
+        # index-editable scan kernels: the outputs read distribution call sites only
+        ret_env = [
+            (["v", j], sig(s["callee"])[1]) for j, s in enumerate(stmts) if s["callee"]["k"] == "dist"
+        ]
     node = {
         "k": "static",
         "ptypes": ptypes,
         "stmts": stmts,
-        "ret": synth(g, env, out, passthrough=0.5),
+        "ret": synth(g, ret_env, out, passthrough=0.5),
         "out": out,
     }
     if kwp:
@@ -505,7 +511,8 @@ def gen_any(g, depth, budget=None, kinds=None):
         if k == "scan":
             xt = rng.choice([["F", "real"], ["F", "real"], ["N"], ["B"]])
             yt = rng.choice([["F", "real"], ["F", "real"], ["N"], ["B"]])
-            inner = gen_static(g, d1, ptypes=[ct, xt], out=T(ct, yt), budget=per)
+            editable = rng.random() < P.get("scan_editable", 0.3)
+            inner = gen_static(g, d1 if not editable else min(d1, 0), ptypes=[ct, xt], out=T(ct, yt), budget=per, ret_from_dists=editable)
             return {"k": "scan", "inner": inner, "n": n, "use_n": xt == ["N"] or rng.random() < 0.3}
         if k in ("accumulate", "reduce"):
             xt = rng.choice([["F", "real"], ["F", "real"], ["B"]])
@@ -623,6 +630,14 @@ def features(node, under_switch=False, acc=None, rootish=True):
         acc.add("mif")
     if k == "mask" and under_switch:
         acc.add("mask_in_switch")
+    if k in ("mask", "masked_iterate", "masked_iterate_final"):
+        # a mask below a mask: with concrete flags the inner trace's choice map
+        # changes *structure* when its flag flips, and MaskCombinator.edit's
+        # tree_map over (new, old) inner traces fails
+        from sim.script import has_kind as _hk
+
+        if any(_hk(c, ("mask", "masked_iterate", "masked_iterate_final")) for c in inner_nodes(node)):
+            acc.add("mask_nested")
     if k in ("switch", "or_else", "mix"):
         brs = node["branches"] if k != "or_else" else [node["a"], node["b"]]
         firsts = [_first_components(b) for b in brs]
